@@ -34,6 +34,8 @@ class Script:
 
     def __call__(self, kind: str, frame: str, target: str) -> list[float]:
         base = 0.004 if kind == "echo" else 0.012
+        if kind == "echo" and " 7FFF " in frame and getattr(self, "mute_7fff", False):
+            return []  # a stick that never echoes its signature / puzzle packets: the gateway is never identified
         if not self.on:
             return [base]
         if kind == "echo":
@@ -49,6 +51,7 @@ async def episode(loop: vloop.VirtualLoop, ctx, pid: str, trial: int) -> None:
 
     rng = random.Random(f"qosint/{ctx.seed}/{trial}")
     script = Script(rng)
+    script.mute_7fff = rng.random() < 0.15
     if pid == "C08" and trial % 2 == 0:  # the ledger needs retransmissions: heavy loss in half of its episodes
         script.p_echo, script.p_rply = rng.choice(((1.0, 1.0), (1.0, 1.0), (0.5, 1.0), (1.0, 0.5), (0.8, 0.8)))
     script.on = False
@@ -70,24 +73,27 @@ async def episode(loop: vloop.VirtualLoop, ctx, pid: str, trial: int) -> None:
     if rng.random() < 0.4:  # a controller's sync cycle is being tracked (sync avoidance is live)
         air.inject(f" I --- {CTL} --:------ {CTL} 1F09 003 FF{rng.choice((5, 50, 1855)):04X}", faultable=False)
     await asyncio.sleep(0.3)
-    meta = {"seed": ctx.seed, "trial": trial, "disable_qos": qos_mode, "p_echo_lost": script.p_echo, "p_reply_lost": script.p_rply, "delay": script.delay}
+    meta = {"seed": ctx.seed, "trial": trial, "stick_never_echoes_7FFF": script.mute_7fff, "disable_qos": qos_mode, "p_echo_lost": script.p_echo, "p_reply_lost": script.p_rply, "delay": script.delay}
     history: list[dict[str, Any]] = []
     n_unhandled = len(loop.unhandled)
 
     async def call(n: int) -> None:
-        code = rng.choice(("30C9", "2309", "000A", "W2309"))
+        code = rng.choice(("30C9", "2309", "000A", "W2309", "faked30C9"))
         idx = f"{n % 12:02X}"
         if code == "W2309":
             cmd = Command.from_attrs(" W", CTL, "2309", f"{idx}07D0")
+        elif code == "faked30C9":  # sent in a faked sensor's name: an impersonation notice goes out first
+            cmd = Command.put_sensor_temp("03:123456", 15.0 + n / 4)
         else:
             cmd = Command.from_attrs("RQ", CTL, code, idx)
         wfr = rng.choice((None, True, False))
         timeout = rng.choice((0.5, 1.5, 3.5, 20, 25))
         retries = rng.choice((0, 1, 3))
         await asyncio.sleep(rng.choice((0.0, 0.0, 0.01, 0.3, 2.0)))
-        rec: dict[str, Any] = {"n": n, "cmd": str(cmd), "wait_for_reply": wfr, "timeout": timeout, "max_retries": retries, "call_vt": loop.time()}
+        rec: dict[str, Any] = {"n": n, "cmd": str(cmd), "wait_for_reply": wfr, "timeout": timeout, "max_retries": retries, "call_vt": loop.time(), "impersonated": code == "faked30C9"}
         history.append(rec)
         ctx.count("int.calls")
+        ctx.count("int.calls.impersonated" if code == "faked30C9" else "int.calls.own")
         try:
             pkt = await asyncio.wait_for(gwy.async_send_cmd(cmd, max_retries=retries, timeout=timeout, wait_for_reply=wfr, priority=Priority(rng.choice((-2, 0, 2)))), timeout=60)
             rec["result"] = str(pkt)
@@ -108,7 +114,7 @@ async def episode(loop: vloop.VirtualLoop, ctx, pid: str, trial: int) -> None:
     script.on = False
     await asyncio.sleep(30.0)
     for rec in history:
-        bound = min(rec["timeout"], 20) + SLACK
+        bound = min(rec["timeout"], 20) + SLACK + (20.0 if rec.get("impersonated") else 0.0)  # + the notice's own send
         took = rec.get("return_vt", 1e9) - rec["call_vt"]
         if pid == "C07":
             if rec.get("open") or took > bound + 1e-6:
@@ -145,7 +151,7 @@ async def episode(loop: vloop.VirtualLoop, ctx, pid: str, trial: int) -> None:
             limit = 1 + min(rec["max_retries"], 3)
             if len(mine) > limit:
                 ctx.violate("C08|integration|too-many-transmissions", "at the serial port a command was written more than 1 + min(max_retries, 3) times", {"call": rec, "writes_vt": mine, "limit": limit, "episode": meta})
-            if "exc" in rec and "Exceeded maximum retries" in rec.get("text", "") and len(mine) != limit and not meta.get("serial_error"):
+            if "exc" in rec and "Exceeded maximum retries" in rec.get("text", "") and len(mine) != limit and not meta.get("serial_error") and "cmd_=7FFF" not in rec.get("text", ""):  # (not: its impersonation notice gave up)
                 ctx.violate("C08|integration|gave-up-early", "a command failed for 'maximum retries' before 1 + min(max_retries, 3) writes reached the serial port", {"call": rec, "writes_vt": mine, "limit": limit, "episode": meta})
             if not rec.get("open") and "return_vt" in rec:
                 late = [vt for vt in mine if vt > rec["return_vt"] + 1e-9]
@@ -318,6 +324,40 @@ async def episode_mqtt(loop: vloop.VirtualLoop, ctx, pid: str, trial: int) -> No
             pass
 
 
+def _run_watched(ctx, pid: str, go, what: str, wall: float = 60.0) -> None:
+    """Run one integration episode under a wall-clock alarm: a loop thread blocked for good inside the library
+    (the sender's own threading lock left held by an assertion) is a hang, i.e. a refutation - anything else that
+    trips the alarm is inconclusive."""
+    import signal
+
+    from .qos import EpisodeStuck
+
+    def on_alarm(signum, frame):  # type: ignore[no-untyped-def]
+        where = []
+        f = frame
+        while f is not None:
+            if "/ramses_" in f.f_code.co_filename:
+                where.append(f"{f.f_code.co_filename.rsplit('/', 1)[-1]}:{f.f_code.co_name}:{f.f_lineno}")
+            f = f.f_back
+        raise EpisodeStuck(where[0] if where else "?")
+
+    old = signal.signal(signal.SIGALRM, on_alarm)
+    signal.setitimer(signal.ITIMER_REAL, wall)
+    try:
+        vloop.run(go)
+    except EpisodeStuck as err:
+        where = str(err)
+        if "_check_buffer_for_cmd" in where:
+            ctx.violate(f"{pid}|{what}|event-loop-blocked-on-sender-lock", "the event-loop thread blocked for ever on the sender's own lock (left held by an internal assertion): every caller hangs", {"blocked_at": where})
+        else:
+            ctx.inconclusive_because(f"{what} episode stopped by the wall-clock alarm at {where}")
+    except vloop.Starved as err:
+        ctx.inconclusive_because(f"{what} episode starved the virtual clock: {err}")
+    finally:
+        signal.setitimer(signal.ITIMER_REAL, 0)
+        signal.signal(signal.SIGALRM, old)
+
+
 def run_integration(ctx, pid: str) -> None:
     for k in range(12 if ctx.quick else 300):
         trial = ctx.shard + k * ctx.nshards
@@ -327,10 +367,7 @@ def run_integration(ctx, pid: str) -> None:
             with clocks_patched():
                 await episode(loop, ctx, pid, trial)
 
-        try:
-            vloop.run(go)
-        except vloop.Starved as err:
-            ctx.inconclusive_because(f"integration episode starved the virtual clock: {err}")
+        _run_watched(ctx, pid, go, "integration")
     for k in range(6 if ctx.quick else 150):
         trial = ctx.shard + k * ctx.nshards
         harness.reset_transport_globals()
@@ -339,7 +376,4 @@ def run_integration(ctx, pid: str) -> None:
             with clocks_patched(perf_counter=True):
                 await episode_mqtt(loop, ctx, pid, trial)
 
-        try:
-            vloop.run(gom)
-        except vloop.Starved as err:
-            ctx.inconclusive_because(f"MQTT integration episode starved the virtual clock: {err}")
+        _run_watched(ctx, pid, gom, "integration-mqtt")
